@@ -145,11 +145,16 @@ _BINDERS = [
     "({v:: ONCE} + {local x = super.v, assert x == 1, r: USE}).r", "[USE for x in [ONCE]][0]", "{[k]: USE for k in ['r'] for x in [ONCE]}.r",
     "local a = [ONCE]; local x = a[0]; USE", "local x = std.map(function(i) ONCE, [0])[0]; USE", "local x = {a: ONCE}.a; USE",
     "local o = {x: ONCE}; local x = o.x; assert x == 1; USE", "local x = ONCE; assert x == 1; USE",
+    # strict calls: the argument is forced once, before the call, and never again
+    "(function(x) USE)(ONCE) tailstrict", "local f(x) = USE; f(ONCE) tailstrict", "local f(x) = USE; f(x=ONCE) tailstrict",
+    "local f(y, x) = USE; f(0, ONCE) tailstrict", "local f(x, y=x) = local x2 = x; (USE) + 0 * y; f(ONCE) tailstrict" if False else "local f(x, y=x) = USE; f(ONCE) tailstrict",
 ]
 _USES = [("[x, x]", [1, 1]), ("x + x", 2), ("{a: x, b: x}", {"a": 1, "b": 1}), ("local g() = x; g() + g()", 2),
          ("std.map(function(i) x + i, [0, 1])", [1, 2]), ("{local y = x, assert y == 1, a: y, b: x}", {"a": 1, "b": 1}),
          ("if x == 1 then x else 0", 1), ("[x][0] + {a: x}.a", 2)]
 SHARED += [(b.replace("USE", "(" + u + ")"), v) for b in _BINDERS for u, v in _USES]
+SHARED += [("std.map(function(v) v + 1, [ONCE]) tailstrict", [2]), ("std.abs(n=ONCE) tailstrict", 1),
+           ("local f(a) = a[0] + a[0]; f([ONCE]) tailstrict", 2)]
 BOMBS = ["error 'bomb'", "(local f() = f(); f())", "std.trace('BOMB', 0)", "{a: 1}.nope", "(1 / 0)", "[][1]"]
 
 # (call with tailstrict twin): the twin may only turn a value into an error when an argument errors
